@@ -84,7 +84,7 @@ def opOf : Json → Option (Op × Option Nat)
 def quirksOf (s : String) : Quirks :=
   let has (x : String) : Bool := (s.splitOn ",").contains x
   { requestFromTimer := has "F1", replyAckedBeforeJoin := has "F2", nestedJoinAcksEarly := has "F4",
-    batchRelaunched := has "F7", childAnswerInProcess := has "F8" }
+    batchRelaunched := has "F7", childAnswerInProcess := has "F8", attemptFailureForgotten := has "F9" }
 
 def nats (xs : List Nat) : Json := .arr (xs.map (fun n => Json.num (Int.ofNat n)))
 
@@ -111,7 +111,7 @@ def handle : List String → String
           "ok\t" ++ js (.obj [(S "sync", .bool true), (S "terminal", .bool o.terminal), (S "notes", .num (Int.ofNat o.notes)),
             (S "resent", nats o.resent), (S "pendingUnsent", nats o.pendingUnsent), (S "pendingLost", nats o.pendingLost),
             (S "quiet", .bool o.quiet), (S "requests", .num (Int.ofNat c'.sent.length)),
-            (S "diverged", .bool c'.diverged),
+            (S "diverged", .bool c'.diverged), (S "failed", .bool (c'.failed > 0)),
             (S "heldEvents", nats ((c'.evq.filter (·.unacked)).map (·.id))),
             (S "joins", .num (Int.ofNat c'.joins.length))])
       | _, _ => "unsupported"
